@@ -3,6 +3,7 @@ import json
 
 from hypothesis import strategies as st
 
+from pbt import gen
 from pbt import im as imm
 from pbt.props.c01 import diff
 from pbt.runner import must, check
@@ -20,7 +21,7 @@ RULE = ("Hypothesis-generated image manifests: 0-8 image records with all 15 att
 ASSUMPTIONS = ["json (stdlib) is a correct JSON reader", "header version is set to 1.2 explicitly, as callers that build manifests do"]
 FLOORS = {"distinct_nontrivial": 300, "roundtrip:shared-object": 50, "roundtrip:unified": 100, "roundtrip:size>=2^32": 100}
 
-case_strategy = st.fixed_dictionaries({"desc": imm.images_desc(), "plan": st.sampled_from([0, 1, 2, 3, 4])})
+case_strategy = st.fixed_dictionaries({"desc": imm.images_desc(), "plan": st.sampled_from([0, 1, 2, 3, 4]), "past": gen.reader_past})
 
 
 def roundtrip(case):
@@ -28,7 +29,7 @@ def roundtrip(case):
     desc = case["desc"]
     obj = must("build", imm.build_images, desc, case.get("plan", 0))
     text = must("dumps-valid-object", obj.dumps)
-    again = Images()
+    again = gen.give_past(Images(), case.get("past", "fresh"))
     must("loads", again.loads, text)
     want, got = imm.expected_cells(desc), imm.snap_cells(again)
     got = {k: v for k, v in got.items() if v}
@@ -48,7 +49,7 @@ def roundtrip(case):
     # the manifest that was just written is changed through its images' attributes and written again
     desc2 = must("modify-existing-manifest", imm.modify_images, desc, obj)
     text3 = must("dumps-after-change", obj.dumps)
-    third = Images()
+    third = gen.give_past(Images(), case.get("past", "fresh"))
     must("loads-after-change", third.loads, text3)
     want2, got2 = imm.expected_cells(desc2), {k: v for k, v in imm.snap_cells(third).items() if v}
     check(want2 == got2, "cells-differ-after-change", lambda: "manifest written, changed in place and written again: re-read cells differ from the changed description: %r" % (
@@ -56,7 +57,7 @@ def roundtrip(case):
     d = diff(imm.expected_doc(desc2), json.loads(text3))
     check(d is None, "document-differs-after-change", lambda: "expected document vs dumps() after an in-place change: %s" % d)
     poison(obj), poison(again), poison(third)
-    return {"nontrivial": imm.is_nontrivial(desc), "labels": imm.labels(desc)}
+    return {"nontrivial": imm.is_nontrivial(desc), "labels": imm.labels(desc) + ["reader-past:" + case.get("past", "fresh")]}
 
 
 # ---- whatever the library agrees to write ---------------------------------------------------------------------------------
